@@ -57,11 +57,23 @@ def main():
         seed = 1
     pid = a.pid.upper()
     mod = importlib.import_module("props." + pid.lower())
-    ctx = vlib.Ctx(pid, a.tier, seed)
+    tier = a.tier
+    rp = None
+    if a.replay:
+        import json
+        try:
+            rp = json.load(open(a.replay))
+            seed, tier = int(rp.get("seed", seed)), rp.get("tier", tier)
+        except (OSError, ValueError) as e:
+            print("INFRA-ERROR property=%s: cannot read replay file %s: %s" % (pid, a.replay, e))
+            sys.exit(2)
+    ctx = vlib.Ctx(pid, tier, seed)
     rc = 2
     try:
-        if a.replay:
-            rc = mod.replay(ctx, a.replay)
+        if rp is not None:
+            # the check is deterministic for a given seed and tier: re-run it and report on the recorded signature only
+            ctx.replay_sig = rp.get("sig", "")
+            rc = mod.run(ctx)
         else:
             rc = mod.run(ctx)
     except vlib.Infra as e:
